@@ -179,6 +179,35 @@ pub fn check_swap_quote(s: &Pool2, ctx: &mut Ctx, amp: u64, before: &Obs, side: 
     }
 }
 
+/// The same curve bound on what an executed swap really did (reported reserves after the swap)
+pub fn check_swap_executed(s: &Pool2, ctx: &mut Ctx, amp: u64, before: &Obs, after: &Obs, side: usize, amount: u128) {
+    if !ctx.on("C03") {
+        return;
+    }
+    let ask = 1 - side;
+    let whole = [10u128.pow(s.cfg.decimals[0] as u32), 10u128.pow(s.cfg.decimals[1] as u32)];
+    if before.reserves[0] < whole[0] || before.reserves[1] < whole[1] {
+        return;
+    }
+    ctx.eval("C03");
+    let sc = scales(s);
+    let n = norm(s, before.reserves);
+    let ann = (amp as u128) * 2;
+    let d = d_star(n[0], n[1], ann);
+    let x_new = n[side] + w(amount) * sc[side];
+    let u = sc[ask];
+    let y0 = y_star(d, x_new, ann, n[ask] + U1024::ONE);
+    let d_lo = if d > u * u1024(2) { d - u * u1024(2) } else { U1024::ZERO };
+    let ymin = y_star(d_lo, x_new, ann, n[ask] + U1024::ONE).min(y_star(d_lo, x_new + u, ann, n[ask] + U1024::ONE));
+    let tol = (if y0 > ymin { y0 - ymin } else { U1024::ZERO }) + u * u1024(2);
+    let reserve_after = w(after.reserves[ask]) * sc[ask];
+    if reserve_after + tol < y0 {
+        let deficit = (y0 - reserve_after) / sc[ask];
+        ctx.fail("C03", "swap_on_or_above_curve", "executed_swap_overpays", None,
+            format!("amp {amp} decimals {:?} reserves {:?} -> {:?}, offer {amount} side {side}: the executed swap left the ask reserve {deficit} base units below the curve point (allowed dust {})", &s.cfg.decimals[..2], before.reserves, after.reserves, tol / sc[ask]));
+    }
+}
+
 pub fn roundtrip_profit(_s: &Pool2, _ctx: &mut Ctx, _amount: u128, _mid: u128, _back: u128) {}
 
 /// D*_after * S_before >= D*_before * S_after, with the documented dust allowance recognised as finding D16
